@@ -101,7 +101,8 @@ def judgeC03 (cfg : Cfg) (f : Bytes) (r : Option Bytes) : Verdict :=
     | none =>
       if mirrors cfg f r 0 then pass true
       else
-        let k := stunChangePorts 4096 (pl.drop 20)
+        -- the responder only looks at the attribute area announced by the length field
+        let k := stunChangePorts (be16 pl 2 + 1) ((pl.drop 20).take (be16 pl 2))
         if k > 0 ∧ stunReply ∧ mirrors cfg f r k then pass true
         else failv "reply is not the mirror image of the request"
 
